@@ -1084,8 +1084,10 @@ Proof.
   destruct H as [Hn H]. destruct (max_edge W) as [me|] eqn:Eme; [|discriminate].
   unfold sentinel in H. destruct (zmax_list (col_sums W)) as [mx|] eqn:Emx; [|discriminate].
   apply Z.leb_le in H. unfold one_of in H.
-  unfold mwbm, prepare. rewrite scan_spec, Hmix. cbn [s_ty s_max s_min s_null]. rewrite Hn, Eme, Emx.
-  replace (mx + match edge_ty W with Some TFloat => u | _ => 1 end >? me) with false. reflexivity.
+  destruct (present_of_max _ _ Eme) as [wm [Hwm _]].
+  destruct (edge_ty_some _ _ Hmix Hwm) as [t [Et _]]. rewrite Et in H.
+  unfold mwbm, prepare. rewrite scan_spec, Hmix. cbn [s_ty s_max s_min s_null]. rewrite Et, Hn, Eme, Emx.
+  replace (mx + match t with TFloat => u | _ => 1 end >? me) with false. reflexivity.
   symmetry. rewrite Z.gtb_ltb. apply Z.ltb_ge. lia.
 Qed.
 
